@@ -29,6 +29,31 @@ func crashHistories(thorough bool) [][]string {
 	}
 	if thorough {
 		hs = append(hs, []string{opAdd1, opAdd0, opAdd1, opRm2, opAdd0, opRm}, []string{opAdd0, opRm, opAdd1, opRm, opAdd0})
+		// every valid history of additions and removals up to length 4 (non-initial states:
+		// each crash point is reached after every shorter history)
+		seen := map[string]bool{}
+		for _, h := range hs {
+			seen[strings.Join(h, ",")] = true
+		}
+		var rec func(h []string, added int)
+		rec = func(h []string, added int) {
+			if len(h) > 0 && !seen[strings.Join(h, ",")] {
+				seen[strings.Join(h, ",")] = true
+				hs = append(hs, append([]string{}, h...))
+			}
+			if len(h) == 4 {
+				return
+			}
+			rec(append(h, opAdd0), added+1)
+			rec(append(h, opAdd1), added+1)
+			if added >= 1 {
+				rec(append(h, opRm), added-1)
+			}
+			if added >= 2 {
+				rec(append(h, opRm2), added-2)
+			}
+		}
+		rec(nil, 0)
 	}
 	return hs
 }
